@@ -6,6 +6,7 @@
 import LpModel.C13
 import Mathlib.Tactic.Ring
 import Mathlib.Tactic.Linarith
+import Mathlib.Algebra.Order.AbsoluteValue.Basic
 namespace Lp.C13
 
 /-! ## [T1] int1D_eq, int1D_swap -/
@@ -260,5 +261,65 @@ theorem effParam_defaults : effParam .gaussKronrod 0 = 5 ∧ effParam .gaussLege
     (∀ p, p ≠ 0 → effParam .gaussKronrod p = p ∧ effParam .gaussLegendre2 p = p) := by
   refine ⟨rfl, rfl, ?_⟩
   intro p hp; simp [effParam, hp]
+
+/-! ## [T1, conditional] nested_accuracy
+
+The accuracy of the external rules is an assumption (`AccurateRule`): on integrands bounded by `M` on
+`[a,b]` the rule `I` is within `τ·(b-a)·M` of a reference functional `J` ("the integral"), `I` is
+Lipschitz with constant `(b-a)` in the sup norm (true of every rule with non-negative weights summing
+to `b-a`), and `|J g| ≤ (b-a)·sup|g|`.  None of this is proved of Boost — it is what "the method's
+accuracy" means; the theorem shows the nesting does not lose more than a factor two. -/
+
+structure AccurateRule (I J : (Rat → Rat) → Rat → Rat → Rat) (τ : Rat) : Prop where
+  acc : ∀ g a b M, a < b → (∀ x, a ≤ x → x ≤ b → |g x| ≤ M) → |I g a b - J g a b| ≤ τ * (b - a) * M
+  lip : ∀ g g' a b D, a < b → (∀ x, a ≤ x → x ≤ b → |g x - g' x| ≤ D) → |I g a b - I g' a b| ≤ (b - a) * D
+  jbound : ∀ g a b M, a < b → (∀ x, a ≤ x → x ≤ b → |g x| ≤ M) → |J g a b| ≤ (b - a) * M
+
+/-- **nested_accuracy (2-D)**: the nested result is within `2τ·area·M` of the iterated reference
+    integral, for every integrand bounded by `M` on the box. -/
+theorem nested_accuracy_2D (Iall : Integ) (MC : MCInteg) (name : String) (m : Method) (hm : parseMethod name = some m)
+    (p : Int) (J : (Rat → Rat) → Rat → Rat → Rat) (τ : Rat) (hτ : 0 ≤ τ)
+    (hA : AccurateRule (Iall m (effParam m p)) J τ)
+    (f : Rat → Rat → Rat) (x1 x2 y1 y2 M : Rat) (hx : x1 < x2) (hy : y1 < y2)
+    (hM : ∀ x y, x1 ≤ x → x ≤ x2 → y1 ≤ y → y ≤ y2 → |f x y| ≤ M) :
+    ∃ v, integrate2D Iall MC name p f x1 x2 y1 y2 = .ok v ∧
+      |v - J (fun x => J (fun y => f x y) y1 y2) x1 x2| ≤ 2 * τ * ((x2 - x1) * (y2 - y1)) * M := by
+  refine ⟨_, nested_order_2D_ordered Iall MC name m hm p f x1 x2 y1 y2 hx hy, ?_⟩
+  set I := Iall m (effParam m p) with hI
+  have hxp : 0 ≤ x2 - x1 := by linarith
+  have hyp : 0 ≤ y2 - y1 := by linarith
+  -- inner error, uniformly in x
+  have inner : ∀ x, x1 ≤ x → x ≤ x2 →
+      |I (fun y => f x y) y1 y2 - J (fun y => f x y) y1 y2| ≤ τ * (y2 - y1) * M :=
+    fun x h1 h2 => hA.acc _ y1 y2 M hy (fun y h3 h4 => hM x y h1 h2 h3 h4)
+  have jin : ∀ x, x1 ≤ x → x ≤ x2 → |J (fun y => f x y) y1 y2| ≤ (y2 - y1) * M :=
+    fun x h1 h2 => hA.jbound _ y1 y2 M hy (fun y h3 h4 => hM x y h1 h2 h3 h4)
+  have t1 := hA.lip (fun x => I (fun y => f x y) y1 y2) (fun x => J (fun y => f x y) y1 y2) x1 x2
+    (τ * (y2 - y1) * M) hx inner
+  have t2 := hA.acc (fun x => J (fun y => f x y) y1 y2) x1 x2 ((y2 - y1) * M) hx jin
+  have tri : |I (fun x => I (fun y => f x y) y1 y2) x1 x2 - J (fun x => J (fun y => f x y) y1 y2) x1 x2|
+      ≤ |I (fun x => I (fun y => f x y) y1 y2) x1 x2 - I (fun x => J (fun y => f x y) y1 y2) x1 x2|
+        + |I (fun x => J (fun y => f x y) y1 y2) x1 x2 - J (fun x => J (fun y => f x y) y1 y2) x1 x2| := by
+    have := abs_add_le (I (fun x => I (fun y => f x y) y1 y2) x1 x2 - I (fun x => J (fun y => f x y) y1 y2) x1 x2)
+      (I (fun x => J (fun y => f x y) y1 y2) x1 x2 - J (fun x => J (fun y => f x y) y1 y2) x1 x2)
+    simpa using this
+  calc _ ≤ _ := tri
+    _ ≤ (x2 - x1) * (τ * (y2 - y1) * M) + τ * (x2 - x1) * ((y2 - y1) * M) := add_le_add t1 t2
+    _ = 2 * τ * ((x2 - x1) * (y2 - y1)) * M := by ring
+
+/-- the hypotheses are satisfiable: the midpoint rule against itself with `τ = 0` -/
+example : AccurateRule (fun f a b => (b - a) * f ((a + b) / 2)) (fun f a b => (b - a) * f ((a + b) / 2)) 0 where
+  acc := by intro g a b M _ _; simp
+  lip := by
+    intro g g' a b D hab h
+    have hm := h ((a + b) / 2) (by linarith) (by linarith)
+    have : (b - a) * g ((a + b) / 2) - (b - a) * g' ((a + b) / 2) = (b - a) * (g ((a + b) / 2) - g' ((a + b) / 2)) := by ring
+    rw [this, abs_mul, abs_of_pos (by linarith : (0 : Rat) < b - a)]
+    exact mul_le_mul_of_nonneg_left hm (by linarith)
+  jbound := by
+    intro g a b M hab h
+    have hm := h ((a + b) / 2) (by linarith) (by linarith)
+    rw [abs_mul, abs_of_pos (by linarith : (0 : Rat) < b - a)]
+    exact mul_le_mul_of_nonneg_left hm (by linarith)
 
 end Lp.C13
